@@ -399,6 +399,12 @@ pub fn gen_mode(d: &mut Dec, p: &GenParams, name: &str) -> ModeSpec {
         };
         pats.push(PatSpec { rx, tt, la });
     }
+    if pats.len() >= 2 && d.chance(12) {
+        // two patterns with the same expression (different token types, perhaps a lookahead)
+        let i = d.below(pats.len());
+        let j = (i + 1 + d.below(pats.len() - 1)) % pats.len();
+        pats[j].rx = pats[i].rx.clone();
+    }
     ModeSpec {
         name: name.to_string(),
         pats,
@@ -412,6 +418,12 @@ pub fn gen_modes(d: &mut Dec, p: &GenParams) -> Vec<ModeSpec> {
     let lo = p.min_modes.clamp(1, p.max_modes.max(1));
     let n = lo + d.below(p.max_modes.max(1) - lo + 1);
     let mut modes: Vec<ModeSpec> = (0..n).map(|i| gen_mode(d, p, MODE_NAMES[i])).collect();
+    if n >= 2 && d.chance(8) {
+        // mode names need not be distinct
+        let i = d.below(n);
+        let j = (i + 1) % n;
+        modes[j].name = modes[i].name.clone();
+    }
     if p.transitions {
         // the pool of token types any mode produces
         let mut pool: Vec<usize> = modes
